@@ -335,15 +335,134 @@ def gen_fbig2(rng, f):
     return s, e
 
 
+def wide_exp(rng, f, big):
+    """a binary exponent far outside every float window: around +-2^15, +-2^16 (+- the whole window of the format: an exponent
+    that an `as i16` cast wraps back INTO the range), +-3*2^15, +-2^17 and - for sources with an exponent field (big) -
+    +-2^31, +-2^32 (+- window), +-2^62: the i16 / i32 / isize casts of the conversion code"""
+    p, emin, eb = FMT[f]
+    emax = emin + p - 1 + (1 << eb) - 2
+    bases = [1 << 15, 1 << 15, 1 << 16, 1 << 16, 1 << 16, 3 << 15, 1 << 17, (1 << 17) + (1 << 16)]
+    if big:
+        bases += [1 << 31, 1 << 31, 1 << 32, 1 << 32, (1 << 32) + (1 << 16), 1 << 62, (1 << 63) - (1 << 20)]
+    off = rng.choice([-1, 0, 1, 2, -2, rng.range(-150, 150), rng.range(emin - 5, emax + 5), rng.range(emin - 5, emax + 5), emin, emax, emin - 1, emax + 1, 0, 10, -10])
+    return rng.choice([1, -1]) * rng.choice(bases) + off
+
+
+def gen_div_route(rng, f, b):
+    """non-binary float on the division route of convert_base (-38 <= exponent < 0): s / b^k whose binary quotient sits at or next to
+    a rounding boundary of p (ties: s = t * odd^k with t an odd (p+1)-bit integer, then +-1, +-2), dividends whose bit length is
+    p + bits(divisor) - 1 / + 0 / + 1 (the padding threshold; the old repr_div route kept p + 1 bits there), short dividends
+    (1..4 digits: the recorded witness 4899e-7), exactly representable quotients (exact flag), values next to the overflow threshold"""
+    p, emin, eb = FMT[f]
+    k = rng.choice([1, 1, 2, 3, 5, 7, 10, 17, 22, 27, 37, 38, rng.range(1, 38)])
+    odd = b
+    while odd % 2 == 0:
+        odd //= 2
+    dv = odd ** k                                   # normal form of the divisor b^k in base 2
+    kind = rng.below(8)
+    if kind == 0:
+        s = rng.range(1, b ** rng.choice([1, 2, 3, 4]))
+    elif kind <= 3:
+        tb = rng.choice([p + 1, p + 1, p + 2, p, p + 3, p - 1])
+        if tb > p:
+            t = head_tail(rng, p, tb - p)
+        else:
+            t = rng.bits(tb) | (1 << (tb - 1)) | 1
+        s = t * dv + rng.choice([0, 0, 1, -1, 2, -2, dv // 2, -(dv // 2), rng.range(-dv, dv)])
+        if rng.chance(1, 4):
+            s <<= rng.choice([1, 2, 5, 30])
+    elif kind == 4:
+        nb = p + dv.bit_length() + rng.choice([-2, -1, 0, 0, 1, 2])
+        s = rng.bits(max(1, nb)) | (1 << (max(1, nb) - 1)) | 1
+    elif kind == 5:
+        t = rng.bits(rng.range(1, p)) | 1
+        s = t * dv * rng.choice([1, 1, 2, 16, 1 << 40])  # exactly representable: t * 2^j / 2^(k*v2(b))
+    elif kind == 6 and f == "f32":
+        # next to the f32 overflow threshold 2^128 (needs a long significand: 2^128 * b^k)
+        s = ((1 << 128) - rng.choice([1 << 103, (1 << 103) + 1, (1 << 103) - 1, 1 << 104, 1, 0])) * b ** k + rng.choice([0, 1, -1])
+    else:
+        s = gen_float_sig(rng, b, rng.choice([3, 8, 17, 25, 40]))
+    s = abs(s) or 1
+    while s % b == 0:
+        s //= b
+        k -= 1
+    if k <= 0:
+        k = 1
+        s = s * b + 1
+    return (-s if rng.chance(1, 2) else s), -k
+
+
+def cast_sweep(rng):
+    """Rust's `as` casts on edge patterns, the same list on every run (the random mantissas come from a fixed seed):
+    int -> float: every integer type at MIN/MAX/+-1, 2^k-1 / 2^k / 2^k+1 for every bit position, 24/53-bit heads with tie and
+    near-tie tails at every length, the u128 -> f32 overflow boundary; float -> int: every type x EVERY f32 exponent field (f64: 0, 1,
+    every field from 2^-3 to 2^130, the two largest) x mantissa {0, 1, half, all ones, random} x sign, i.e. +-0, subnormals, halves, the
+    neighbours of every power of two up to beyond u128, MAX, +-inf, quiet / signalling / negative NaN."""
+    fixed = core.Rng(0xC06CA57)
+    lines = []
+
+    def chunks(prefix, vals, k=64):
+        for i in range(0, len(vals), k):
+            lines.append(prefix + " " + " ".join(vals[i:i + k]))
+
+    for f in ("f32", "f64"):
+        p = FMT[f][0]
+        for t in UNS + SGN:
+            lo, hi = prim_range(t)
+            w = width(t)
+            vs = {lo, hi, lo + 1, hi - 1, 0, 1, 2, 3}
+            for k in range(w + 1):
+                for d in (-2, -1, 0, 1, 2):
+                    vs.add((1 << k) + d)
+                    vs.add(-(1 << k) + d)
+            for L in range(p + 1, w + 1):
+                g = L - p
+                half = 1 << (g - 1)
+                for head in ((1 << p) - 1, 1 << (p - 1), (1 << (p - 1)) + 1, fixed.bits(p) | (1 << (p - 1)) | 1, (fixed.bits(p) | (1 << (p - 1))) & ~1):
+                    for tail in (half, half - 1, half + 1, 0, (1 << g) - 1):
+                        if 0 <= tail < (1 << g):
+                            vs.add((head << g) + tail)
+                            vs.add(-((head << g) + tail))
+            for d in (-2, -1, 0, 1, 2):
+                vs.add((1 << 128) - (1 << 103) + d)
+                vs.add((1 << 128) - (1 << 104) + d)
+            chunks("cast_i2f %s %s" % (f, t), [hx(v) for v in sorted(vs) if lo <= v <= hi])
+    for f in ("f32", "f64"):
+        p, emin, eb = FMT[f]
+        mb = p - 1
+        bias = (1 << (eb - 1)) - 1
+        fields = list(range(1 << eb)) if f == "f32" else sorted(set([0, 1, 2, (1 << eb) - 2, (1 << eb) - 1] + list(range(bias - 3, bias + 131))))
+        pats = []
+        for E in fields:
+            for man in (0, 1, 1 << (mb - 1), (1 << mb) - 1, fixed.bits(mb), (1 << (mb - 1)) + 1):
+                for sign in (0, 1):
+                    pats.append("%x" % ((sign << (mb + eb)) | (E << mb) | man))
+        for t in UNS + SGN:
+            chunks("cast_f2i %s %s" % (t, f), pats)
+    return lines
+
+
 def gen_cases(rng, tier, n):
-    out = []
+    out = cast_sweep(rng)
     ops = ["prim", "prim", "prim", "f2int", "f2int", "int2f", "int2f", "tof", "tof", "tof", "enc", "enc", "enc", "dec", "rtof", "rtof", "rtof",
            "rfast", "r2f", "f2r", "r2int", "rtoint", "rtofl", "rtofl", "fl2r", "fltof", "fltof", "fltof", "fl2f", "f2fl", "fl2i", "fl2p", "i2fl",
            "fltoint"]
+    ops += ["cast"]
     while len(out) < n:
         op = rng.choice(ops)
         f = rng.choice(["f32", "f64"])
-        if op == "prim":
+        if op == "cast":
+            t = rng.choice(UNS + SGN)
+            lo, hi = prim_range(t)
+            if rng.chance(1, 2):
+                vs = []
+                for _ in range(8):
+                    v = rng.choice([gen_bigint(rng, True), head_tail(rng, FMT[f][0]), -head_tail(rng, FMT[f][0]), rng.range(lo, hi), sticky_int(rng, f)])
+                    vs.append(hx(max(lo, min(hi, v)) if rng.chance(1, 2) else (v % (hi - lo + 1)) + lo))
+                out.append("cast_i2f %s %s %s" % (f, t, " ".join(vs)))
+            else:
+                out.append("cast_f2i %s %s %s" % (t, f, " ".join("%x" % gen_bits(rng, f) for _ in range(8))))
+        elif op == "prim":
             t = rng.choice(UNS + SGN)
             lo, hi = prim_range(t)
             k = rng.below(8)
@@ -384,7 +503,18 @@ def gen_cases(rng, tier, n):
         elif op == "dec":
             out.append("dec %s %x" % (f, gen_bits(rng, f)))
         elif op in ("rtof", "rfast", "r2f"):
-            if op == "rfast" and rng.chance(1, 3):
+            if rng.chance(1, 10):
+                # exponents far outside the window (the `as i16` cast of TryFrom<RBig>, the isize shifts of to_f32/to_f64): a short or
+                # (p+1)-bit mantissa times 2^+-E as a huge numerator or a huge power-of-two denominator, sometimes times 3 in the denominator
+                p, emin, eb = FMT[f]
+                bits = rng.choice([1, 1, 2, p - 1, p, p, p + 1, rng.range(1, p + 2)])
+                man = (rng.bits(bits) | (1 << (bits - 1)) | 1) if bits > 1 else 1
+                e = wide_exp(rng, f, False) - bits
+                nn, dd = (man << e, 1) if e >= 0 else (man, 1 << -e)
+                if rng.chance(1, 8):
+                    dd *= 3
+                nn = -nn if rng.chance(1, 2) else nn
+            elif op == "rfast" and rng.chance(1, 3):
                 # numerator longer than the 48/106 bits kept, with an engineered dropped part (none, one bit, all ones):
                 # the shift of a negative numerator rounds away from zero and can create or destroy a tie of the quotient
                 p, emin, eb = FMT[f]
@@ -467,12 +597,17 @@ def gen_cases(rng, tier, n):
                 s, e = rng.choice(["inf", "-inf"]), "0"
             elif b == 2:
                 s, e = gen_fbig2(rng, f)
+                if rng.chance(1, 8):
+                    e = wide_exp(rng, f, True) - abs(s).bit_length()
                 s, e = hx(s), hx(e)
             elif b in (8, 16):
                 s = gen_float_sig(rng, b, 20)
                 lg = 3 if b == 8 else 4
                 p, emin, eb = FMT[f]
                 e = rng.choice([0, 1, -1, rng.range(-5, 5), (emin // lg) + rng.range(-3, 8), ((emin + p + (1 << eb)) // lg) + rng.range(-8, 2), rng.range(-300, 300)])
+                s, e = hx(s), hx(e)
+            elif rng.chance(1, 2):
+                s, e = gen_div_route(rng, f, b)
                 s, e = hx(s), hx(e)
             else:
                 s = gen_float_sig(rng, b, rng.choice([3, 8, 17, 25]))
@@ -494,6 +629,8 @@ def gen_cases(rng, tier, n):
                 p = FMT[f][0]
                 s = (rng.bits(rng.range(1, p + 1)) | 1) * rng.choice([1, -1])
                 e = e + rng.range(0, 30)
+            if rng.chance(1, 8):
+                e = wide_exp(rng, f, True) - abs(s).bit_length()
             if rng.chance(1, 40):
                 s, e = rng.choice(["inf", "-inf"]), 0
             else:
